@@ -37,21 +37,22 @@ structure Desc where
 
 /-! ### Byteorder.h -/
 
-/-- `Avtp_Bswap16`, mask-and-shift as written in the header. -/
+/-- `Avtp_Bswap16`, mask-and-shift as written in the header: the operand is promoted to
+    `unsigned int`, left shifts wrap at 32 bits, the result is converted to `uint16_t`. -/
 def bswap16 (x : Nat) : Nat :=
-  ((x &&& 0xff00) >>> 8) ||| ((x &&& 0x00ff) <<< 8)
+  (((x &&& 65280) >>> 8) ||| (((x &&& 255) <<< 8) % 2 ^ 32)) % 2 ^ 16
 
-/-- `Avtp_Bswap32`. -/
+/-- `Avtp_Bswap32` (all arithmetic in `unsigned int`). -/
 def bswap32 (x : Nat) : Nat :=
-  ((x &&& 0xff000000) >>> 24) ||| ((x &&& 0x00ff0000) >>> 8)
-    ||| ((x &&& 0x0000ff00) <<< 8) ||| ((x &&& 0x000000ff) <<< 24)
+  ((x &&& 4278190080) >>> 24) ||| ((x &&& 16711680) >>> 8)
+    ||| (((x &&& 65280) <<< 8) % 2 ^ 32) ||| (((x &&& 255) <<< 24) % 2 ^ 32)
 
-/-- `Avtp_Bswap64`. -/
+/-- `Avtp_Bswap64` (all arithmetic in `unsigned long`). -/
 def bswap64 (x : Nat) : Nat :=
-  ((x &&& 0xff00000000000000) >>> 56) ||| ((x &&& 0x00ff000000000000) >>> 40)
-    ||| ((x &&& 0x0000ff0000000000) >>> 24) ||| ((x &&& 0x000000ff00000000) >>> 8)
-    ||| ((x &&& 0x00000000ff000000) <<< 8) ||| ((x &&& 0x0000000000ff0000) <<< 24)
-    ||| ((x &&& 0x000000000000ff00) <<< 40) ||| ((x &&& 0x00000000000000ff) <<< 56)
+  ((x &&& 18374686479671623680) >>> 56) ||| ((x &&& 71776119061217280) >>> 40)
+    ||| ((x &&& 280375465082880) >>> 24) ||| ((x &&& 1095216660480) >>> 8)
+    ||| (((x &&& 4278190080) <<< 8) % 2 ^ 64) ||| (((x &&& 16711680) <<< 24) % 2 ^ 64)
+    ||| (((x &&& 65280) <<< 40) % 2 ^ 64) ||| (((x &&& 255) <<< 56) % 2 ^ 64)
 
 /-- `Avtp_BeToCpuN` = `Avtp_CpuToBeN`: swap on a little-endian host, identity on a
     big-endian one (the two `#if` branches of Byteorder.h). -/
